@@ -1,2 +1,79 @@
-(* C12 — placeholder while the model is validated; theorems follow *)
+(* C12 — annealer dynamics are reproducible Metropolis sweeps.
+   Statements only; proofs in Proofs/AnnealProofs.v.
+
+   metro_step E is the chain the property names: pick spin i (the sweep position, or pcg32_boundedrand), compute the EXACT
+   energy difference dE = E(flip i s) - E(s) of the model, accept when dE <= 0, otherwise (T > 0) when the next uniform
+   number is below exp(-dE/T).  The theorems say that both C kernels compute exactly this chain, step for step and with
+   the same random stream -- the quadratic kernel through its cache of energy differences (C12_cache), the general kernel
+   through its subgraph sums -- and what the chain does at temperature zero.  A model run is a function of its arguments
+   (seed included), so identical calls agree; exp() itself is outside the model: acceptance at T > 0 is decided against
+   rational enclosures of exp(-dE/T), and a run the enclosures cannot decide is reported as unknown, never guessed. *)
 From QV.Model Require Import Base Matrix Convert Reduce Anneal.
+From QV.Proofs Require Import BaseProofs AnnealProofs.
+Open Scope Q_scope.
+
+(* the cached entry of the quadratic kernel is the exact energy difference of the model *)
+Theorem C12_quso_exact_dE : forall N t s i, qvalid N t -> NoDup (map fst t) -> (i < length s)%nat ->
+  cf (quso_flatten N t) s i == E_puso (puso_flatten t) (upd i Z.opp s) - E_puso (puso_flatten t) s.
+Proof. exact quso_flip_energy. Qed.
+Print Assumptions C12_quso_exact_dE.
+
+(* ... and stays exact across every accepted flip (the incremental update recompute_flip_dE) *)
+Theorem C12_cache : forall a N s fl spin, args_ok a N -> length s = N -> (spin < N)%nat ->
+  length fl = N -> (forall n, (n < N)%nat -> nth n fl 0 == cf a s n) ->
+  length (recompute_flip a s fl spin) = N /\
+  forall n, (n < N)%nat -> nth n (recompute_flip a s fl spin) 0 == cf a (upd spin Z.opp s) n.
+Proof. exact recompute_correct. Qed.
+Print Assumptions C12_cache.
+
+(* the general kernel: -2 * (sum of the terms containing the spin) is the exact energy difference *)
+Theorem C12_puso_exact_dE : forall a s i, nodup_keys a -> (i < length s)%nat ->
+  E_puso a (upd i Z.opp s) == E_puso a s + -(2) * puso_subgraph_value a s i.
+Proof. exact puso_flip_energy. Qed.
+Print Assumptions C12_puso_exact_dE.
+
+(* both kernels ARE the Metropolis chain with exact energy differences: whole anneals, any schedule, both visiting orders *)
+Theorem C12_quso_refines : forall a N E tab io Ts r s, args_ok a N -> exact_dE a N E -> length s = N ->
+  quso_single a tab io Ts r s = metro_single E tab io Ts r s.
+Proof. exact quso_single_refines. Qed.
+Print Assumptions C12_quso_refines.
+Theorem C12_puso_refines : forall a tab io Ts r s, nodup_keys a ->
+  puso_single a tab io Ts r s = metro_single (E_puso a) tab io Ts r s.
+Proof. exact puso_single_refines. Qed.
+Print Assumptions C12_puso_refines.
+
+(* temperature zero: never uphill, so the final energy is at most the initial one ... *)
+Theorem C12_zero_descent : forall E tab io Ts r s r' s', metro_single E tab io Ts r s = Some (r', s') ->
+  length s' = length s /\ (pm1 s -> pm1 s') /\ (all_zero Ts -> E s' <= E s).
+Proof. exact metro_single_spec. Qed.
+Print Assumptions C12_zero_descent.
+(* ... and visiting in order, spin j is flipped exactly when that does not raise the energy, without using the generator *)
+Theorem C12_zero_inorder : forall E tab T r s j, T == 0 ->
+  metro_step E tab true T (r, s) j = Some (r, if qle0 (E (upd j Z.opp s) - E s) then upd j Z.opp s else s).
+Proof. exact metro_step_zero_inorder. Qed.
+Print Assumptions C12_zero_inorder.
+
+(* the acceptance rule: downhill always; uphill at T > 0 exactly according to the enclosure of exp(-dE/T) *)
+Theorem C12_accept_downhill : forall tab r dE T, dE <= 0 -> accept tab r dE T = Some (r, true).
+Proof. exact accept_downhill. Qed.
+Print Assumptions C12_accept_downhill.
+Theorem C12_accept_uphill : forall tab r dE T r' b, accept tab r dE T = Some (r', b) -> 0 < dE -> 0 < T ->
+  exists lo hi, tab_get (dE / T) tab = Some (lo, hi) /\ r' = fst (rand_double r) /\
+                (if b then snd (rand_double r) < lo else hi < snd (rand_double r)).
+Proof. exact accept_uphill. Qed.
+Print Assumptions C12_accept_uphill.
+(* the random spin index is in range *)
+Theorem C12_rand_int : forall r stop r' i, rand_int r stop = Some (r', i) -> (i < stop)%nat.
+Proof. exact rand_int_lt. Qed.
+Print Assumptions C12_rand_int.
+
+(* non-vacuity: the hypotheses of C12_quso_refines are met by the arrays of a concrete model *)
+Example C12_example : let t := [([0; 1]%nat, 1); ([1; 2]%nat, -(1)); ([0]%nat, 1 # 2)] in
+  args_ok (quso_flatten 3 t) 3 /\ exact_dE (quso_flatten 3 t) 3 (E_puso (puso_flatten t)).
+Proof.
+  intros t.
+  assert (Hv : qvalid 3 t).
+  { intros k v [E|[E|[E|[]]]]; injection E as <- _; [right; right; exists 0%nat, 1%nat| right; right; exists 1%nat, 2%nat| right; left; exists 0%nat]; repeat split; auto; discriminate. }
+  split; [apply flatten_ok, Hv|]. intros s i Ls Hi. apply quso_flip_energy; [exact Hv| |rewrite Ls; exact Hi].
+  repeat constructor; simpl; intuition discriminate.
+Qed.
